@@ -533,7 +533,7 @@ func (c01) Exec(c *core.Case) (out *core.Outcome) {
 			for _, d := range parts {
 				all = append(all, d...)
 			}
-			st := &ObjState{Data: all, ETag: s3c.MultipartETag(parts), Hdrs: hdrMap(op.Hdrs), Meta: metaMap(op.Meta), Tags: op.Tags, MP: true}
+			st := &ObjState{Data: all, ETag: s3c.MultipartETag(parts), Hdrs: hdrMap(op.Hdrs), Meta: metaMap(op.Meta), Tags: op.Tags, MP: true, CkFull: op.CkFull && op.Algo != ""}
 			model[op.Key] = st
 			wi[op.Key] = &winfo{kind: "mpu", gw: cl.GW}
 		case "copy":
@@ -640,6 +640,10 @@ func (c01) Exec(c *core.Case) (out *core.Outcome) {
 				if got != "" && got != want.CkVal {
 					viol(op, i, "attrs", fmt.Sprintf("attributes checksum %s=%s, want %s", want.CkAlgo, got, want.CkVal))
 				}
+			}
+			if want.CkFull && at.Checksum != nil && at.Checksum.ChecksumType != "FULL_OBJECT" {
+				// the upload was created (and accepted) with checksum type FULL_OBJECT
+				viol(op, i, "attrs", fmt.Sprintf("attributes report checksum type %q for an object whose multipart upload was created with type FULL_OBJECT", at.Checksum.ChecksumType))
 			}
 			if at.Checksum != nil && (!want.MP || at.Checksum.ChecksumType == "FULL_OBJECT") && at.Checksum.ChecksumType != "COMPOSITE" {
 				// whatever checksum is reported, of whichever algorithm, is the checksum of the bytes GET returns
